@@ -214,6 +214,7 @@ func (op *Operation) run() {
 		}
 		queryCondSignaled := op.cond.Signaled()
 		op.mu.Unlock()
+		verifBeforeSelect(op, stalled != nil)
 		select {
 		case stalled <- struct{}{}:
 		case <-op.stopping.Done():
